@@ -147,9 +147,9 @@ func H_C18(mode, d int) {
 			onlyChild = true
 			t.childFn = func(n Node, i int) Node { return n.Child(n.ChildCount() - 1 - i) }
 		}
-	case 3, 4:
+	case 3, 4, 7, 8:
 		var doc []byte
-		if mode == 3 {
+		if mode == 3 || mode == 7 {
 			for i := 0; i < d; i++ {
 				doc = append(doc, "- a\n"...)
 			}
@@ -213,7 +213,16 @@ func H_C18(mode, d int) {
 			}
 			return k
 		}
-		flipAt = vconcrete(nondetInt(-1, 2*size(root)))
+		if mode >= 7 {
+			// modes 7 (wide) and 8 (deep): the same trees at larger sizes, the callback
+			// that returns false chosen from a short menu of positions (none, the first
+			// events, the middle of the event sequence, the last events)
+			sz := size(root)
+			menu := []int{-1, 0, 1, sz - 1, sz, sz + 1, 2*sz - 2, 2*sz - 1}
+			flipAt = menu[vconcrete(nondetInt(0, len(menu)-1))]
+		} else {
+			flipAt = vconcrete(nondetInt(-1, 2*size(root)))
+		}
 	}
 	record := func(post bool, c *Cursor) bool {
 		var ret bool
